@@ -14,12 +14,17 @@ from vlib import vZ, vbool, vlist, vopt, vpair
 
 CLAUSES = {
     0: None,
-    3: "D6_unsigned_coords_negative_step",
+    3: "gcxs_getitem_unsigned_indices",
     4: "D21_gcxs_several_index_arrays",
-    5: "D22_gcxs_none_with_only_ints_or_0d_or_dok_empty_key",
+    5: "D22_gcxs_0d_or_none_with_only_ints",
+    6: "D22_dok_empty_key",
     7: "D24_dok_all_array_key_takes_fancy_getitem",
-    8: "D25_dok_0d",
+    8: "D22_dok_0d",
     9: "outside_grammar",
+    10: "D27_gcxs_none_with_1d_result",
+    11: "D28_gcxs_none_after_int",
+    12: "D26_all_ints_with_ellipsis_not_last_returns_scalar",
+    13: "D29_empty_bool_index_on_nonempty_axis",
 }
 KINDS = {1: "representation", 2: "value", 3: "value", 4: "value", 5: "value", 6: "value", 7: "value", 8: "harness",
          9: "spec"}
@@ -67,7 +72,7 @@ def entry_py(e):
     if k == "a":
         return f"np.array({e[1]!r}, dtype=np.intp)" if e[2] else repr(e[1])
     if k == "b":
-        return f"np.array({e[1]!r}, dtype=bool)" if e[2] else repr(e[1])
+        return f"np.array({e[1]!r}, dtype=bool)" if (e[2] or not e[1]) else repr(e[1])
     raise ValueError(e)
 
 
@@ -88,8 +93,8 @@ def entry_obj(e):
         return Ellipsis
     if k == "a":
         return np.array(e[1], dtype=np.intp) if e[2] else list(e[1])
-    if k == "b":
-        return np.array(e[1], dtype=bool) if e[2] else list(e[1])
+    if k == "b":      # an empty Python list is an (empty) integer index for NumPy: keep bool arrays typed
+        return np.array(e[1], dtype=bool) if (e[2] or not e[1]) else list(e[1])
     raise ValueError(e)
 
 
